@@ -341,7 +341,7 @@ PINNED = {
         "_GD_Seek(D,entry,sample_num+pos,mode);",
     ],
     ("iopos.c", "_GD_Seek"): [
-        "if(offset<0)GD_SET_RETURN_ERROR(D,GD_E_RANGE,GD_E_OUT_OF_RANGE,NULL,0,NULL);",
+        "if(offset<0)",
     ],
     ("iopos.c", "_GD_DoSeek"): [
         "if(GD_SIZE(E->EN(raw,data_type))>0&&offset>GD_INT64_MAX/GD_SIZE(E->EN(raw,data_type))){",
